@@ -760,6 +760,23 @@ def eval_eqn(ctx, eqn, ins):
         return [SV(np.asarray(x), np_dtype(v.aval)) for x, v in zip(rs, eqn.outvars)]
     ctx.stats["sym_eqns"] += 1
     outs = eval_sym(ctx, eqn, ins)
+    sm = getattr(ctx, "shadow_model", None)
+    if sm is not None:
+        # shadow validation (debugging aid / DESIGN 1.6): under a given model, every symbolically evaluated equation is also run on
+        # the real primitive with the model's operand values; the first disagreement names the faulty rule
+        try:
+            cin = [jnp.asarray(_concretize(sm, i).a) for i in ins]
+            r = eqn.primitive.bind(*cin, **p)
+            rs = r if eqn.primitive.multiple_results else [r]
+            for k_, (o, rr) in enumerate(zip(outs, rs)):
+                got = _concretize(sm, o).a
+                if not np.array_equal(np.asarray(got), np.asarray(rr), equal_nan=True):
+                    ctx.stats.setdefault("shadow_mismatch", []).append(
+                        {"primitive": name, "params": str({k: str(v)[:80] for k, v in p.items()})[:400], "out": k_,
+                         "operands": [np.asarray(c).tolist() if np.asarray(c).size <= 40 else str(np.asarray(c).shape) for c in cin],
+                         "encoded": np.asarray(got).tolist() if np.asarray(got).size <= 40 else "big", "real": np.asarray(rr).tolist() if np.asarray(rr).size <= 40 else "big"})
+        except Exception as e:  # noqa
+            ctx.stats.setdefault("shadow_errors", []).append(f"{name}: {e!r}"[:200])
     res = []
     for o, v in zip(outs, eqn.outvars):
         assert tuple(o.shape) == aval_shape(v.aval), (name, o.shape, v.aval)
